@@ -234,6 +234,35 @@ def run(chk):
             chk.fail("gibbs-scan-mixes-strengths", f"baths built from one PowerLawSD object at alpha = {strengths}: the Gibbs states differ from those of freshly built "
                      f"spectral densities by {devs}; the zero-coupling one from exp(-H/T)/Z by {np.abs(np.array(got[1]) - canon).max():.2e}", info)
 
+    # ---- (b4) a temperature scan with ONE GibbsParameters object and one System: every computation belongs to the temperature
+    # of ITS bath (the imaginary-time step is 1 / (T n_steps) for that T) ----------------------------------------------------
+    for it in range(2 if thorough else 1):
+        temps = rng.sample([0.4, 0.7, 1.0, 1.6], 3)
+        nst = rng.choice([4, 6])
+        o = np.diag([1.0, 0.0, -0.5])
+        a = np.array([[rng.gauss(0, 1) + 1j * rng.gauss(0, 1) for _ in range(3)] for _ in range(3)])
+        H = (a + a.conj().T) / 3
+        strengths = [0.2, 0.0, 0.1]
+        info = {"kind": "temperature-scan", "temperatures": temps, "n_steps": nst, "strengths": strengths}
+        chk.search_cases += 1
+        chk.count("gibbs_temperature_scan")
+        try:
+            shared_par, shared_system = oqupy.GibbsParameters(n_steps=nst, epsrel=1e-10), oqupy.System(H)
+            mk_bath = lambda T_, al: oqupy.Bath(o, oqupy.PowerLawSD(alpha=al, zeta=1, cutoff=3.0, cutoff_type="exponential", temperature=T_))
+            _ = str(shared_par)
+            got = [quiet(oqupy.gibbs_tempo_compute, shared_system, mk_bath(T_, al), shared_par, progress_type="silent") for T_, al in zip(temps, strengths)]
+            want = [quiet(oqupy.gibbs_tempo_compute, oqupy.System(H), mk_bath(T_, al), oqupy.GibbsParameters(n_steps=nst, epsrel=1e-10), progress_type="silent")
+                    for T_, al in zip(temps, strengths)]
+        except Exception as ex:
+            chk.fail("gibbs-raises", f"GibbsTempo raises {ex!r}", info)
+            continue
+        canon = expm(-H / temps[1])
+        canon = canon / np.trace(canon)
+        devs = [float(np.abs(np.array(g_) - np.array(w_)).max()) for g_, w_ in zip(got, want)]
+        if max(devs) > 1e-9 or np.abs(np.array(got[1]) - canon).max() > 1e-8:
+            chk.fail("gibbs-scan-mixes-temperatures", f"one GibbsParameters object used for baths at T = {temps}: the Gibbs states differ from those computed with fresh "
+                     f"parameter objects by {devs}; the zero-coupling one from exp(-H/T)/Z at its own T by {np.abs(np.array(got[1]) - canon).max():.2e}", info)
+
     # ---- (b2) the zero of energy is irrelevant: a sweep of offsets H + E0 (E0/T from -15 to 30), two tolerances -----------
     for it in range(4 if thorough else 2):
         d = 3
